@@ -5,7 +5,7 @@ CONSTANTS
   PayMax = 2
   ExtraPayloads = {}
   Sizes <- MCSizesBig
-  Runes <- MCRunesBig
+  Runes <- MCRunes
   MaxLen = 5
 CONSTRAINT Bound
 INVARIANTS TypeOK PrevOK CleanNoUnread
